@@ -188,6 +188,17 @@ def urldecode : Bytes → Bytes
     if c.toNat = 37 ∧ isXDigit a ∧ isXDigit b then UInt8.ofNat ((xdigit a * 16 + xdigit b) % 256) :: urldecode r
     else c :: urldecode (a :: b :: r)
 
+/-- `xattr_key_decode` (pax_header.c, /repo 34384f9; in place, never longer than its input): GNU tar writes `%` and `=`
+inside an xattr key as `%25` and `%3D` (upper case `D` only); every other byte, other escapes included, is copied -/
+def xattrKeyDecode : Bytes → Bytes
+  | [] => []
+  | [c] => [c]
+  | [c, d] => [c, d]
+  | c :: a :: b :: r =>
+    if c.toNat = 37 ∧ a.toNat = 50 ∧ b.toNat = 53 then 37 :: xattrKeyDecode r
+    else if c.toNat = 37 ∧ a.toNat = 51 ∧ b.toNat = 68 then 61 :: xattrKeyDecode r
+    else c :: xattrKeyDecode (a :: b :: r)
+
 /-- `pax_sparse_map`: `off,count[,off,count]*`; each number by `parse_uint(line, -1, &diff, 0, 0, …)` -/
 def sparseMapLoop (buf : Bytes) : Nat → Nat → List SparseEnt → R (List SparseEnt)
   | 0, _, _ => .spin
@@ -244,7 +255,8 @@ def paxApply (buf : Bytes) (r : PaxRec) (o : PaxOut) : R PaxOut :=
       .ok { o with flags := o.flags ||| PAX_SPARSE_GNU_1_X }
     else if isPrefixOf (([83, 67, 72, 73, 76, 89, 46, 120, 97, 116, 116, 114, 46] : Bytes) /- "SCHILY.xattr." -/) key then
       -- `sqfs_xattr_create(key + strlen(name) + 1, value, valuelen)`: the value is the `valuelen` raw bytes
-      .ok { o with xattr := { key := key.drop 13, value := (buf.drop r.value).take r.valueLen } :: o.xattr }
+      -- … then `pax_xattr_schily` unescapes the key (`xattr_key_decode`)
+      .ok { o with xattr := { key := xattrKeyDecode (key.drop 13), value := (buf.drop r.value).take r.valueLen } :: o.xattr }
     else if isPrefixOf (([76, 73, 66, 65, 82, 67, 72, 73, 86, 69, 46, 120, 97, 116, 116, 114, 46] : Bytes) /- "LIBARCHIVE.xattr." -/) key then
       -- in-place `base64_decode(value, value_len, value, &value_len)`, then `urldecode(key)`
       match base64Decode buf r.value r.valueLen r.valueLen with
